@@ -403,6 +403,85 @@ def _ct_control(out, exe, env, wrapper, label, expect_abort):
     return fired
 
 
+def _lackey_trace(exe, scen, cap, secret_path, logpath):
+    """Run one scenario under lackey; return (hash of the bracketed trace, number of trace lines) or None."""
+    import hashlib
+    p = subprocess.run(["valgrind", "--tool=lackey", "--trace-mem=yes", "--log-file=" + logpath, exe, str(scen), str(cap), secret_path],
+                       stdout=subprocess.PIPE, stderr=subprocess.PIPE, text=True, timeout=600)
+    if p.returncode != 0 or "marker=" not in p.stdout:
+        return None
+    marker = int(p.stdout.split("marker=")[1].split()[0], 16)
+    h = hashlib.sha1(); inside = False; nlines = 0; seen_end = False
+    with open(logpath, "r", errors="replace") as f:
+        for line in f:
+            if line.startswith(" S "):
+                try:
+                    addr = int(line[3:].split(",")[0], 16)
+                except ValueError:
+                    addr = -1
+                if addr == marker:
+                    if not inside:
+                        inside = True
+                        continue
+                    seen_end = True
+                    break
+            if inside:
+                h.update(line.encode()); nlines += 1
+    os.unlink(logpath)
+    if not seen_end:
+        return None
+    return h.hexdigest(), nlines
+
+
+def _trace_equality(out, vname, scenarios):
+    """Secondary C08 oracle: bracketed lackey traces must be identical across secret sets."""
+    import random
+    exe = build_driver("drv_trace", ["drv_trace.c", "lib.c"], vname, common=False)
+    rng = random.Random(out.seed * 31337 + 8)
+    wd = core.workdir()
+    K = 3
+
+    def one(job):
+        scen, cap = job
+        hashes = []
+        for k in range(K):
+            sp = os.path.join(wd, "secret-%d-%d-%s.bin" % (scen, cap, vname.replace("+", "_")))   # same path (same argv length) for every secret set
+            r2 = random.Random((scen * 131 + cap) * 1000 + k + out.seed)
+            with open(sp, "wb") as f:
+                f.write(bytes(r2.getrandbits(8) for _ in range(8192)) if k else bytes(8192))
+            res = _lackey_trace(exe, scen, cap, sp, sp + ".log")
+            os.unlink(sp)
+            if res is None:
+                return (scen, cap, None)
+            hashes.append(res)
+        return (scen, cap, hashes)
+    # positive control
+    ctl = one((999999, 2))
+    fired = ctl[2] is not None and len(set(h for h, _ in ctl[2])) > 1
+    out.observed["positive_control_trace_" + vname] = {"distinct_traces_for_leaky_code": len(set(h for h, _ in ctl[2])) if ctl[2] else 0, "fired": fired}
+    if not fired:
+        out.inconclusive.append({"reason": "trace-equality positive control did not show differing traces (%s)" % vname})
+        return
+    # scenario kind = scen % 3 (single-block / ctr / parallel); back-end cap cycles over generic, vec128, vec256
+    jobs = [(rng.randrange(0, 100000) * 3 + (i % 3), (i // 3) % 3) for i in range(scenarios)]
+    lines = 0
+    for scen, cap, hashes in core.pool().map(one, jobs):
+        out.evaluations += 1
+        if hashes is None:
+            out.inconclusive.append({"reason": "lackey run failed or markers not found", "scenario": scen, "cap": cap})
+            continue
+        lines += hashes[0][1]
+        out.distinct.add(hash((vname, scen, cap)) & 0x7FFFFFFFFFFFFFFF)
+        out.counters["trace_scenarios_compared"] = out.counters.get("trace_scenarios_compared", 0) + 1
+        out.counters["secret_sets_per_scenario"] = K
+        if len(set(h for h, _ in hashes)) != 1:
+            out.violation("C08:trace:%s:instruction-or-address-trace-depends-on-secrets:%s" % (vname, ("single-block", "ctr", "parallel")[scen % 3]),
+                          detail={"scenario": scen, "backend_cap": cap, "trace_hashes": [h for h, _ in hashes], "trace_lines": [nl for _, nl in hashes]},
+                          replay={"driver": "drv_trace", "scenario": scen, "cap": cap, "variant": vname, "seed": out.seed})
+    out.counters["trace_lines_compared"] = out.counters.get("trace_lines_compared", 0) + lines
+    out.variants.append("%s under valgrind lackey (trace equality)" % vname)
+
+
 @check("C08")
 def c08(out):
     out.rule = ("public-parameter grid enumerated by case index: (a) key-schedule and single-block functions for every legal key length, tweak length 1..B or NULL, Mantis rounds x mode incl. swap_modes; (b) CTR objects per "
@@ -418,7 +497,9 @@ def c08(out):
     exe = build_driver("drv_ct", ["drv_ct.c"] + HIST, "msan")
     if _ct_control(out, exe, core.san_env("msan"), [], "msan", True):
         run_sharded(out, exe, [], "msan", n(out, 6000, 120000), label="msan")
+    _trace_equality(out, "prod", n(out, 36, 600))
     if out.tier == "thorough":
+        _trace_equality(out, "clang", 200)
         for vname in ("clang", "prod+W32", "prod+UNAL0", "prod+NEUTRAL", "prod+O0", "clang+W32"):
             exe = build_driver("drv_ct_vg", ["drv_ct.c"] + HIST, vname, extra=["-DVH_VALGRIND"])
             run_sharded(out, exe, ["--case-timeout", "900"], vname, 9000, label="memcheck-" + vname, wrapper=vgw, timeout=3000)
